@@ -199,15 +199,15 @@ class FilReader(Filterbank):
             data = np.frombuffer(read_buffer, dtype=self.bitsinfo.dtype)
 
         self._file.seek(start * self.samp_stride)
-        nreads, lastread = divmod(nsamps, (gulp - skipback))
-        if lastread < skipback:
-            nreads -= 1
-            lastread = nsamps - (nreads * (gulp - skipback))
+        # Full blocks start every (gulp - skipback) samples and must end inside the
+        # requested range; the last block holds what is left, including its overlap
+        nreads = (nsamps - gulp) // (gulp - skipback) + 1
+        lastread = nsamps - (nreads * (gulp - skipback))
         blocks = [
             (ii, gulp * self.header.nchans, -skipback * self.header.nchans)
             for ii in range(nreads)
         ]
-        if lastread != 0:
+        if lastread > skipback:
             blocks.append((nreads, lastread * self.header.nchans, 0))
 
         ends_at_eos = start + nsamps >= self.header.nsamples
